@@ -244,6 +244,9 @@ _S("special.logsumexp axis", "sp.special.logsumexp(x, axis=1)", [((2, 3), "R")])
 _S("special.logsumexp axis=-2 keepdims", "sp.special.logsumexp(x, axis=-2, keepdims=True)", [((2, 3), "R")])
 _S("special.logsumexp b", "sp.special.logsumexp(x, b=__import__('numpy').array([1.0, 2.0, 0.5]))", [((3,), "R")])
 _S("special.logsumexp tuple axis", "sp.special.logsumexp(x, axis=(0, 2))", [((2, 2, 2), "R")])
+_S("special.logsumexp tuple axis negative", "sp.special.logsumexp(x, axis=(-2, -1))", [((2, 2, 3), "R")])
+_S("special.logsumexp tuple axis negative keepdims", "sp.special.logsumexp(x, axis=(-1, -3), keepdims=True)", [((2, 2, 2), "R")])
+_S("special.logsumexp tuple axis b", "sp.special.logsumexp(x, axis=(-1, 0), b=__import__('numpy').array([1.0, 2.0, 0.5]))", [((3, 2, 3), "R")])
 for _mode in ("full", "valid"):
     _S(f"signal.convolve 1-D {_mode}", f"sp.signal.convolve(x, y, mode='{_mode}')", [((5,), "R"), ((3,), "R")], (0, 1))
     _S(f"signal.convolve 2-D {_mode}", f"sp.signal.convolve(x, y, mode='{_mode}')", [((3, 4), "R"), ((2, 2), "R")], (0, 1))
@@ -445,6 +448,14 @@ CASES += [
     ("diagonal (3,2) axes (-1,-2)", "lambda anp, x: anp.diagonal(x, axis1=-1, axis2=-2) ** 2", [((3, 2), "R")], (0,)),
     ("diagonal (2,2,3) axes (-1,-2)", "lambda anp, x: anp.diagonal(x, axis1=-1, axis2=-2)", [((2, 2, 3), "R")], (0,)),
     ("diagonal (3,3) axes (-1,-2)", "lambda anp, x: anp.diagonal(x, axis1=-1, axis2=-2)", [((3, 3), "R")], (0,)),
+    # tuple axes with NEGATIVE entries, on shapes whose leading sizes coincide (a mis-placed expand_dims then broadcasts silently instead of failing)
+    ("max axis=(-2,-1) (2,2,3)", "lambda anp, x: anp.max(x, axis=(-2, -1))", [((2, 2, 3), "P")], (0,)),
+    ("min axis=(-1,-2) (3,3,3)", "lambda anp, x: anp.min(x, axis=(-1, -2))", [((3, 3, 3), "P")], (0,)),
+    ("amax axis=(-3,-1) (2,2,2)", "lambda anp, x: anp.amax(x, axis=(-3, -1))", [((2, 2, 2), "P")], (0,)),
+    ("amin axis=(0,-1) (2,3,2)", "lambda anp, x: anp.amin(x, axis=(0, -1))", [((2, 3, 2), "P")], (0,)),
+    ("sum/mean/prod axis=(-2,-1) (2,2,3)", "lambda anp, x: anp.sum(x, axis=(-2, -1)) + anp.mean(x, axis=(-2, -1)) * anp.prod(x, axis=(-1, -2))", [((2, 2, 3), "P")], (0,)),
+    ("std axis=(-2,-1) (2,2,3)", "lambda anp, x: anp.std(x, axis=(-2, -1))", [((2, 2, 3), "P")], (0,)),
+    ("var axis=(-1,-2) ddof (2,2,3)", "lambda anp, x: anp.var(x, axis=(-1, -2), ddof=1)", [((2, 2, 3), "P")], (0,)),
     # reductions of ONE-element arrays of rank >= 1 (the reduction still removes axes)
     ("max (1,)", "lambda anp, x: anp.max(x)", [((1,), "R")], (0,)),
     ("min (1,1) axis=0", "lambda anp, x: anp.min(x, axis=0)", [((1, 1), "R")], (0,)),
